@@ -12,8 +12,8 @@ import types
 LEVEL = "proof"
 MANIFEST_ENTRY = {
     "category": "proof",
-    "text": "Lean 4 theorems at ℝ about the *translated* source (Python ast → Lean partial evaluator, regenerated from the repo on every run): the polar series equals the spec χ=(2π/λ)Σ α^{n+1}/(n+1)·C_nm cos(m(φ−φ_nm)) over the 14-entry (n,m) table = all 25 symbols; each symbol individually (single_symbol, every_symbol_contributes) in surface AND gradients; the `if any(k in coefs…)` guards, translated faithfully with a presence predicate, are transparent for every set of present keys (guards_transparent) and list every symbol (guard_complete); Σ cart_l·basis_l = χ with cart = polar_to_cartesian(polar); the basis loop translated over a DYNAMIC label list returns column i = basis function of labels[i] for every list (basis_column_order); Cartesian→polar→Cartesian is the identity on all 25 labels, polar→Cartesian→polar returns the coefficients for C>0, mφ∈(−π,π] and otherwise still the identical surface; merge adds the deltas' basis expansion; dchi_dk = λ·∂χ/∂α, α·dchi_dphi = λ·∂χ/∂φ and (dchi_dx, dchi_dy) = λ·∇_{x,y}χ through the source's own sqrt/atan2 polar coordinates at every point but the origin (generated aberration_surface_cartesian_gradients, branch cut via 2π-periodicity); the key/value loop bodies of the three alias implementations, translated, equal the hand model's steps for every key/value (alias_steps_are_translated, defocus_sign_in_source) and 'defocus' ↦ C10 = −defocus for every input dict by induction; the fit END TO END: _passively_rotate_grid, polar_coordinates, _torch_polar (on an abstract svd meeting its spec) and the whole extraction part of fit_aberrations_from_shifts are translated; lateral shifts of a quadratic set are basis@(R_{−θ}·A) at every pixel; a full-column-rank basis has non-zero Gram determinant and the normal equations return the matrix; the translated _torch_polar returns the RIGHT polar factor = the unique polar decomposition (torch_polar_is_polar, polar_decomposition_unique); the translated extraction returns (C10,C12,φ12,θ) for every |θ|<π/2 together with every C12>0, |C10|>C12, φ12∈(−π/2,π/2] (fit_roundtrip_translated_polar). Float correspondence of every generated definition (guards and dynamic label lists included), the alias models and the fit against the real torch code; autograd/consistency predicates on the real code as failing-input search.",
-    "note": "Trusted: Lean kernel + propext/Classical.choice/Quot.sound; the translator (validated by the correspondence on the same functions); IEEE rounding and torch are outside the theorems. Hand-modelled and only tied by correspondence: torch.linalg.lstsq (as normal equations), torch.linalg.svd (abstract, assumed to meet IsSVD), the k-grid/mask plumbing of the fit (pinned to a template by the translator) and of _return_lateral_shifts (fftfreq grid, `/2/np.pi`), the plumbing around the alias loops (key validation, nested-dict recursion, zero fill, float32 conversion). Labels outside the 25-label table (e.g. 'C77_a') are outside the model. Gradient theorems are partial derivatives (HasDerivAt), not a joint Fréchet derivative.",
+    "text": "Lean 4 theorems at ℝ about the *translated* source (Python ast → Lean partial evaluator, regenerated from the repo on every run): the polar series equals the spec χ=(2π/λ)Σ α^{n+1}/(n+1)·C_nm cos(m(φ−φ_nm)) over the 14-entry (n,m) table = all 25 symbols; each symbol individually (single_symbol, every_symbol_contributes) in surface AND gradients; the `if any(k in coefs…)` guards, translated faithfully with a presence predicate, are transparent for every set of present keys (guards_transparent) and list every symbol (guard_complete); Σ cart_l·basis_l = χ with cart = polar_to_cartesian(polar); the basis loop translated over a DYNAMIC label list returns column i = basis function of labels[i] for every list (basis_column_order); Cartesian→polar→Cartesian is the identity on all 25 labels, polar→Cartesian→polar returns the coefficients for C>0, mφ∈(−π,π] and otherwise still the identical surface; merge adds the deltas' basis expansion; dchi_dk = λ·∂χ/∂α, α·dchi_dphi = λ·∂χ/∂φ and (dchi_dx, dchi_dy) = λ·∇_{x,y}χ through the source's own sqrt/atan2 polar coordinates at every point but the origin (generated aberration_surface_cartesian_gradients, branch cut via 2π-periodicity); the key/value loop bodies of the three alias implementations, translated, equal the hand model's steps for every key/value (alias_steps_are_translated, defocus_sign_in_source) and 'defocus' ↦ C10 = −defocus for every input dict by induction; the fit END TO END: _passively_rotate_grid, polar_coordinates, _torch_polar (on an abstract svd meeting its spec) and the whole extraction part of fit_aberrations_from_shifts are translated; lateral shifts of a quadratic set are basis@(R_{−θ}·A) at every pixel; a full-column-rank basis has non-zero Gram determinant and the normal equations return the matrix; the translated _torch_polar returns the RIGHT polar factor = the unique polar decomposition (torch_polar_is_polar, polar_decomposition_unique); the translated extraction returns (C10,C12,φ12,θ) for every |θ|<π/2 together with every C12>0, |C10|>C12, φ12∈(−π/2,π/2] (fit_roundtrip_translated_polar). THE ALIAS CODE AS STATE (round 5): the probe_params setter as a state machine on _probe_params with values float() rejects — an assignment is rejected iff a predicate of the dict alone fails, a rejected assignment (key check OR part-way through the conversions) leaves the whole state unchanged, rejected assignments can be deleted from EVERY history (probe_params_rejected_calls_are_noops), what an accepted one stores is the hand model of the defocus theorems (probe_params_setter_is_hand_model), and the last accepted defocus = x gives C10 = −x after any history (probe_params_history_defocus); HyperparameterState with the write-backs of optimize_/grid_search_hyperparameters and the cross-correlation / least-squares fits: for every initial dict, every history of operations and every override only the 25 polar symbols are ever handed to the surface code (hstate_only_symbols_reach_surface), and searching over `defocus` is searching over C10 = −defocus (entry_points_alias_eq_canonical). Float correspondence of every generated definition (guards and dynamic label lists included), the alias models, the two state machines (whole state after every step of generated histories, rejected steps included) and the fit against the real torch code; autograd/consistency predicates, alias-form-vs-canonical-form runs of every DirectPtychography entry point on a real tiny instance, and same-prior-twice merges on the real code as failing-input search.",
+    "note": "Trusted: Lean kernel + propext/Classical.choice/Quot.sound; the translator (validated by the correspondence on the same functions); IEEE rounding and torch are outside the theorems. Hand-modelled and only tied by correspondence: torch.linalg.lstsq (as normal equations), torch.linalg.svd (abstract, assumed to meet IsSVD), the k-grid/mask plumbing of the fit (pinned to a template by the translator) and of _return_lateral_shifts (fftfreq grid, `/2/np.pi`), the plumbing around the alias loops (key validation, nested-dict recursion, zero fill, float32 conversion). Labels outside the 25-label table (e.g. 'C77_a') are outside the model. Gradient theorems are partial derivatives (HasDerivAt), not a joint Fréchet derivative. Round 5: the state machines (PState, HState) are hand models tied by correspondence only (not translated); the search write-back is modelled GIVEN the best-parameter dict the search returns (optuna / the grid loop themselves are not modelled; the real methods run on an attribute stub whose reconstruct() only resolves the coefficients, and on a real tiny DirectPtychography in the entry stream); nested dicts inside probe_params are modelled to depth 1; the top-level 'defocus' REPORT of probe_params is not kept in step with C10 by the code (probe_params_reported_defocus_counterexample, replayed every run) — no accepted alias is misread, so this is recorded, not flagged.",
     "technique": "Lean 4 proof over translator output (Python ast → Lean, regenerated every run) + model-vs-implementation Float correspondence + autograd/consistency predicates on the real code",
 }
 RULE = ("alias values are drawn over the numeric forms in FORMS (Python int/float/bool, NumPy scalars and 0-d arrays, "
@@ -21,9 +21,15 @@ RULE = ("alias values are drawn over the numeric forms in FORMS (Python int/floa
         "a case is one coefficient set evaluated at several (α,φ) points (formula stream), one input dict for one alias "
         "implementation (alias stream), or one (grid, mask, θ, C10, C12, φ12) fit; distinct non-trivial = distinct "
         "(stream, dtype, regime, set of aberration orders present, #keys bucket, alias/None/nested usage, outcome, "
-        "θ kind, sign of C10) with at least one non-zero coefficient")
+        "θ kind, sign of C10) with at least one non-zero coefficient; round 5: a pphist case is a history of 2-6 probe_params "
+        "assignments on one object (stub or real ProbePixelated; values in 10 numeric forms incl. numeric strings, 0/-0.0/None, and 8 "
+        "forms float() rejects; unknown keys; nested aberration_coefs), an hstate case a HyperparameterState with 2-6 operations "
+        "(reads with overrides, clears, grid/optuna search write-backs through the real methods), an entry case one DirectPtychography "
+        "entry point called with the alias form and the canonical form of the same coefficients, a mergehist case one tensor prior "
+        "merged twice; distinct = (stream, object kind, max order, #steps, #rejected, error classes, nesting / op kinds / entry, keys)")
 TRUSTED = ["harness/translator/aberr2lean.py (partial evaluator, grammar in its docstring); cross-checked by the Float correspondence on every translated function",
-           "torch elementwise kernels, torch.linalg.lstsq/svd, torch autograd (the gradient oracle of the failing-input search)"]
+           "torch elementwise kernels, torch.linalg.lstsq/svd, torch autograd (the gradient oracle of the failing-input search)",
+           "harness/props/c12_ext.py: the layering oracle (last writer wins through canonical names) and the attribute stub standing for DirectPtychography in the hstate stream; optuna's samplers"]
 ASSUMPTIONS = ["float `1/3`, `0.5`, … in the source are read as exact rationals in the ℝ theorems (IEEE rounding is measured, not proved)",
                "`if any(k in coefs …)` guards are emitted both unguarded and faithfully (`…_guarded`, run by the driver); guards_transparent proves the two agree for every set of present keys when absent keys read 0",
                "a coefficient value is modelled as a real number with a numeric type (TVal: exact | unsigned b | signed b); `float(v)` reads it, `-v` negates in that type; NumPy/torch bool negation (which raises) is not modelled",
@@ -32,6 +38,9 @@ ASSUMPTIONS = ["float `1/3`, `0.5`, … in the source are read as exact rational
                "_torch_polar is translated on top of an abstract svd; torch_polar_is_polar proves it equals the closed form polar2 (run by the driver) for any svd meeting its specification; correctness of torch.linalg.svd is measured",
                "torch.linalg.lstsq is modelled by the normal equations (lstsq_exact: exact for a full-column-rank basis); agreement is measured",
                "ProbeBase.probe_params setter and DirectPtychography._return_lateral_shifts are called on attribute stubs (the real function objects, no dataset needed)",
+               "a value is None | a number (read by float()) | a value float() rejects with a probed exception class; the exception class is what is compared, never the message",
+               "a rejected probe_params assignment must leave _probe_params as it was (the property's alias clause after a REJECTED call followed by valid reads); the caller's dict (which the setter mutates on success) is not compared",
+               "alias form vs canonical form of one coefficient set must give the same results in every DirectPtychography entry point (reads of .aberration_coefs exactly; tensors to 1e-5 relative)",
                "fit identifiable domain used by the generator: |θ| ≤ 0.47π, |C10| ≥ 1.5·C12 > 0, φ12 ∈ (−π/2, π/2], ≥ 6 bright-field pixels spanning rank 2, only C10/C12/phi12 non-zero"]
 EXPLANATION = ("Theorems in Props/C12.lean are about Generated/Aberration.lean, which pregenerate() rebuilds from the "
                "function bodies in the repo under test on every run; every generated definition, the alias models and "
